@@ -27,6 +27,21 @@ def _png_path():
     return p
 
 
+def _png_path2():
+    from ..core import repo
+    from ..spec.figures import make_png
+
+    d = os.path.join(repo.VERIF, ".work", "histpool")
+    os.makedirs(d, exist_ok=True)
+    p = os.path.join(d, "fig2.png")
+    if not os.path.exists(p):
+        tmp = p + f".{os.getpid()}"
+        with open(tmp, "wb") as f:
+            f.write(make_png(7, 5, bytes(range(90, 150))))
+        os.replace(tmp, p)
+    return p
+
+
 def DF2():
     import polars as pl
 
@@ -137,6 +152,30 @@ def _pool():
                                           rtf_page=rtf.RTFPage(nrow=2), rtf_body=rtf.RTFBody(group_by=["k"])),
         "gpB": lambda sh: rtf.RTFDocument(df=__import__("polars").DataFrame({"k": ["K0v5", "K0v5", "K0v6", "K0v6", "K0v6"], "a": [f"D{r}.1" for r in range(5)]}),
                                           rtf_page=rtf.RTFPage(nrow=2), rtf_body=rtf.RTFBody(group_by=["k"], text_color="green")),
+        # documents for the hash-seed sweep only (HASHSEED_NAMES): features whose implementation is tempted to go through a set
+        # of names - several removed columns with per-column attributes, many colours incl. same-RGB names, footnote and source
+        # both as tables, a figure with footnote and source, texts whose non-ASCII runs contain one another
+        "hs1": lambda sh: rtf.RTFDocument(
+            df=__import__("polars").DataFrame({"subject": [LONG.replace("D0", f"D{r}") for r in range(4)], "value": ["a^2", "b_1", "c>=d", "e"], "site": ["G0v0", "G0v0", "G0v1", "G0v1"],
+                                               "arm": ["G1v0", "G1v1", "G1v1", "G1v1"]}),
+            rtf_page=rtf.RTFPage(nrow=9),
+            rtf_body=rtf.RTFBody(page_by=["site", "arm"], col_rel_width=[1, 4, 3, 2], text_font_size=[[8, 9, 10, 11]], text_justification=[["l", "c", "r", "c"]],
+                                 text_convert=[[False, True, False, True]], text_color=[["red", "blue", "green", "orange"]])),
+        "hs2": lambda sh: rtf.RTFDocument(
+            df=__import__("polars").DataFrame({"arm": ["G1v0", "G1v0", "G1v1", "G1v1"], "x": ["D0.0", "D1.0", "D2.0", "D3.0"], "y": [1, 2, 3, 4], "site": ["U0v0", "U0v0", "U0v0", "U0v1"]}),
+            rtf_page=rtf.RTFPage(nrow=8),
+            rtf_body=rtf.RTFBody(subline_by=["site"], page_by=["arm"], col_rel_width=[3, 1, 2, 2], text_format=[["b", "", "i", ""]], border_left=[["single", "", "double", ""]])),
+        "hs3": lambda sh: rtf.RTFDocument(
+            df=DF3R(), rtf_title=rtf.RTFTitle(text="T0", text_color="gray"), rtf_footnote=rtf.RTFFootnote(text="F0", text_color="grey", text_background_color="green"),
+            rtf_body=rtf.RTFBody(text_color=[["darkgray", "darkgreen", "darkgrey"]], border_color_top=[["lightgray", "lightgreen", "lightgrey"]], border_top="single",
+                                 text_background_color=[["white", "gray100", "orange"]])),
+        "hs4": lambda sh: rtf.RTFDocument(df=DF2(), rtf_page=rtf.RTFPage(nrow=5, page_footnote="all", page_source="all", border_last="double"),
+                                          rtf_body=rtf.RTFBody(border_last="dashed"), rtf_footnote=rtf.RTFFootnote(text="F0"), rtf_source=rtf.RTFSource(text="Z0", as_table=True)),
+        "hs5": lambda sh: rtf.RTFDocument(rtf_figure=rtf.RTFFigure(figures=[_png_path(), _png_path()], fig_width=2, fig_height=1.5), rtf_title=rtf.RTFTitle(text="T0"),
+                                          rtf_footnote=rtf.RTFFootnote(text="F0", as_table=False), rtf_source=rtf.RTFSource(text="Z0"),
+                                          rtf_page=rtf.RTFPage(page_footnote="all", page_source="all")),
+        "hs6": lambda sh: rtf.RTFDocument(df=__import__("polars").DataFrame({"a": ["\u6771\u4eac / \u6771\u4eac\u90fd", "\u00c4\u00d6, \u00c4, \u00c4\u00d6\u00dc"], "b": ["\u03b1 / \u03b1\u03b2", "\u03b8\u2081 vs \u03b8"]}),
+                                          rtf_title=rtf.RTFTitle(text="\u03b1\u03b2\u03b3 - \u03b1\u03b2 - \u03b1")),
         "figure": lambda sh: rtf.RTFDocument(rtf_figure=rtf.RTFFigure(figures=[_png_path()], fig_width=2, fig_height=1.5),
                                              rtf_title=rtf.RTFTitle(text="T0", text_color="orange")),
         # shA / shB hold the same component objects AND the same DataFrame; same column count
@@ -168,6 +207,16 @@ def _pool():
         "cA": lambda sh: rtf.RTFDocument(df=DF2(), rtf_title=sh["ctitle"]),
         "cB": lambda sh: rtf.RTFDocument(df=DF2(), rtf_title=sh["ctitle"], rtf_body=rtf.RTFBody(text_color="blue")),
         "cC": lambda sh: rtf.RTFDocument(df=[DF2(), DF3()], rtf_title=sh["ctitle"], rtf_body=[rtf.RTFBody(text_color="green"), rtf.RTFBody(text_background_color="yellow")]),
+        # POOL4 -- documents that are EDITED IN PLACE between encodes (events ed0..ed2, see EDITS)
+        "eRed": lambda sh: rtf.RTFDocument(df=DF2(), rtf_body=rtf.RTFBody(text_color="red", border_top="single", border_color_top="red"),
+                                           rtf_title=rtf.RTFTitle(text="T0 a^2 >= b_1 \\alpha", text_color="red"), rtf_page_footer=rtf.RTFPageFooter(text="PF0")),
+        "ePaged": lambda sh: rtf.RTFDocument(df=DF2(), rtf_page=rtf.RTFPage(nrow=3, margin=[0.5, 0.6, 0.7, 0.8, 0.4, 0.3]),
+                                             rtf_body=rtf.RTFBody(text_color=[["blue", "green"]]), rtf_footnote=rtf.RTFFootnote(text="F0")),
+        "ePb": lambda sh: rtf.RTFDocument(df=__import__("polars").DataFrame({"site": ["G0v0", "G0v0", "G0v1", "G0v1"], "arm": ["G1v0", "G1v1", "G1v1", "G1v1"],
+                                                                              "x": [LONG.replace("D0", f"D{r}") for r in range(4)], "y": [f"D{r}.1" for r in range(4)]}),
+                                          rtf_page=rtf.RTFPage(nrow=9), rtf_body=rtf.RTFBody(page_by=["site"], col_rel_width=[1, 1, 2, 4])),
+        "eFig": lambda sh: rtf.RTFDocument(rtf_figure=rtf.RTFFigure(figures=[_png_path()], fig_width=2, fig_height=1.5),
+                                           rtf_title=rtf.RTFTitle(text="T0", text_color="orange")),
         "mSub": lambda sh: rtf.RTFDocument(df=[DF2(), DFG()], rtf_body=[rtf.RTFBody(), rtf.RTFBody(subline_by=["k"])],
                                            rtf_title=rtf.RTFTitle(text="T0"), rtf_page_header=rtf.RTFPageHeader()),
     }
@@ -176,8 +225,59 @@ def _pool():
 POOL_NAMES = ["plain", "red", "paged", "fnall", "grouped", "bad", "late", "multi", "multiw", "narrow", "wide", "figure", "shA", "shB", "shC"]
 POOL2_NAMES = ["gA", "gB", "gC", "gD", "mBad", "mBadF", "mOk", "mT", "mSub"]
 POOL3_NAMES = ["fT", "fF", "cA", "cB", "cC"]
-ALL_NAMES = POOL_NAMES + POOL2_NAMES + POOL3_NAMES
-GROUPS = [POOL_NAMES, POOL2_NAMES, POOL3_NAMES]
+POOL4_NAMES = ["eRed", "ePaged", "ePb", "eFig"]
+ALL_NAMES = POOL_NAMES + POOL2_NAMES + POOL3_NAMES + POOL4_NAMES
+GROUPS = [POOL_NAMES, POOL2_NAMES, POOL3_NAMES, POOL4_NAMES]
+
+
+def _norm(component_cls, **kw):
+    """The internal (validated) form of field values, taken from a throw-away component built by the public constructor."""
+    c = component_cls(**kw)
+    return {k: getattr(c, k) for k in kw}
+
+
+def edits_of(name):
+    """In-place edits a user can make between two encodes of document `name` (assignments to fields of nested components;
+    every value is the validated form produced by a public constructor).  -> list of callables(doc)"""
+    import rtflite as rtf
+
+    def assign(get, cls, **kw):
+        def f(doc):
+            comp = get(doc)
+            for k, v in _norm(cls, **kw).items():
+                setattr(comp, k, v)
+        return f
+
+    if name == "eRed":
+        return [assign(lambda d: d.rtf_title, rtf.RTFTitle, text="T9 \\alpha >= x^2"),
+                assign(lambda d: d.rtf_title, rtf.RTFTitle, text_convert=False),
+                assign(lambda d: d.rtf_body, rtf.RTFBody, text_color="blue")]
+    if name == "ePaged":
+        return [assign(lambda d: d.rtf_page, rtf.RTFPage, margin=[1.1, 0.9, 1.3, 0.7, 0.55, 0.45]),
+                assign(lambda d: d.rtf_page, rtf.RTFPage, nrow=4),
+                assign(lambda d: d.rtf_footnote, rtf.RTFFootnote, text="F9 edited")]
+    if name == "ePb":
+        return [assign(lambda d: d.rtf_body, rtf.RTFBody, page_by=["arm"]),
+                assign(lambda d: d.rtf_body, rtf.RTFBody, page_by=["site"], new_page=True, pageby_row="column"),
+                assign(lambda d: d.rtf_page, rtf.RTFPage, nrow=5)]
+    if name == "eFig":
+        return [assign(lambda d: d.rtf_figure, rtf.RTFFigure, figures=[_png_path2(), _png_path()], fig_width=[3.0, 2.0], fig_height=[2.0, 1.5]),
+                assign(lambda d: d.rtf_figure, rtf.RTFFigure, figures=[_png_path()], fig_width=[3.0], fig_height=[1.5]),
+                assign(lambda d: d.rtf_title, rtf.RTFTitle, text="T9 edited")]
+    return []
+
+
+N_EDITS = 3
+
+
+def construct_edited(key, shared):
+    """key = 'name' or 'name+e0+e2': the document built by the public constructor with the edits applied in order (no encode in between)."""
+    name, *eds = key.split("+")
+    doc = construct(name, shared)
+    for e in eds:
+        edits_of(name)[int(e[1:])](doc)
+    return doc
+HASHSEED_NAMES = ["hs1", "hs2", "hs3", "hs4", "hs5", "hs6", "pbA", "pbB", "gpA", "gpB"]  # fresh-interpreter sweep over PYTHONHASHSEED only
 SHARES = {"shA": ("body", "header", "page", "sub", "fn", "df"), "shB": ("body", "header", "page", "sub", "fn", "df"),
           "shC": ("body", "header", "page"),
           "gA": ("gbody",), "gB": ("gbody", "fn2"), "gC": ("gbody",), "gD": ("fn2",), "mBad": ("lastbody",), "mBadF": ("fn2",), "mOk": ("fn2", "lastbody"), "mT": ("lastbody",),
@@ -210,7 +310,7 @@ def _main():
         try:
             sh = mk_shared()
             try:
-                doc = construct(name, sh)
+                doc = construct_edited(name, sh)
             except Exception as e:  # noqa: BLE001 - a document whose construction is refused is a legitimate pool member
                 out[name] = ["construct-exc", type(e).__name__]
                 continue
